@@ -3130,7 +3130,9 @@ class Gaussian(Preparation, Decomposition):
             for n, expr in enumerate(D[: self.ns]):
                 if np.abs(expr - 1) >= _decomposition_tol:
                     r = np.abs(np.log(expr) / 2)
-                    cmds.append(Command(Squeezed(r, 0), reg[n]))
+                    # x variance below vacuum: squeezed in x (phase 0), above: squeezed in p (phase pi)
+                    phi = 0 if expr < 1 else np.pi
+                    cmds.append(Command(Squeezed(r, phi), reg[n]))
                 else:
                     cmds.append(Command(Vac, reg[n]))
 
@@ -3139,7 +3141,8 @@ class Gaussian(Preparation, Decomposition):
             for n, v in enumerate(BD_modes):
                 if not np.all(v - np.identity(2) < _decomposition_tol):
                     r = np.abs(np.arccosh(np.sum(np.diag(v)) / 2)) / 2
-                    phi = np.arctan(2 * v[0, 1] / np.sum(np.diag(v) * [1, -1]))
+                    # V = R(phi/2) diag(e^{-2r}, e^{2r}) R(phi/2)^T: sin(phi) ~ -2 v01, cos(phi) ~ v11 - v00
+                    phi = np.arctan2(-2 * v[0, 1], v[1, 1] - v[0, 0])
                     cmds.append(Command(Squeezed(r, phi), reg[n]))
                 else:
                     cmds.append(Command(Vac, reg[n]))
